@@ -29,6 +29,12 @@ CLAIMS["C13"] = ("ownership of version creation/commit calls + dominance order o
 CLAIMS["C19"] = ("PANICSITE: SSA inventory of six panic-capable construct kinds in the untrusted-input packages with dominating-guard recognition (access-path nil tests, comma-ok assertions, producer-type summaries) and a reviewed-safe table; FUEL checks on recursive resolvers and the IBLT decode loop; positive-control fixture",
   "Static decision that every unchecked assertion, optional-pointer dereference, discarded-error dereference, nil-checked-elsewhere field use, explicit panic and (nil,nil)-result dereference in 38 input-facing packages is guarded or reviewed, and that reference-following resolvers and the IBLT peel loop keep their fuel. Found and repaired 12 genuine panics. Index bounds, dependency panics and general loop termination are not decided.",
   "Trusts go/ssa and the reviewed-safe table (105 named constructs with reasons in checker/props/c19_reviewed.go).")
+CLAIMS["C01"] = ("must-pass-through on the credential/presentation verifier and both signature algorithms (assumption-specialised on checkSignature/allowUntrusted/verifyVCs), refusal and dominance rules for the status-list verdict, argument provenance (issuer binding, resolve time, self-attested exception), issuer/wallet gates",
+  "Static decision that a 'valid' verdict is reachable only through every conjunct of the property (validator, types, revocation, status list, trust, window, issuer resolution, signature bound to the claimed issuer; presenter==subject, VP signature, every embedded credential) and that own issuance passes the same validators. Exhaustive over the current source; necessary structural conditions.",
+  "Trusts go/ssa; canonicalisation/JWT coverage and the issue→verify round trip are value-level and not decided.")
+CLAIMS["C11"] = ("add-only inventories (no Delete on revocation models, setBit(true) only, upsert-all-columns), must-pass-through on network revocation registration and status-list verification, transaction-closure / row-lock / loaded-record ordering of every status list re-issue, locked index hand-out",
+  "Static decision that revocations and set bits are never removed, that only issuer-signed revocations are stored, that a revoked bit fails verification from the named and verified list only, and that every re-issue happens in a transaction from freshly loaded revocations under the row lock. Exhaustive over the current source.",
+  "Trusts go/ssa, gorm Preload/transaction semantics and SQL row locks; actual uniqueness under concurrency is not decided.")
 PENDING = {}
 
 def main():
